@@ -246,3 +246,602 @@ Example C05_override_onto_directory_refuted :
    let r2 := run (cfg_set_dry (c05_ex_cfg Override []) false) c05_dd_plan [] c05_dd_fs in
    r_status d2 = 0%Z /\ r_status r2 = 126%Z).
 Proof. vm_compute. repeat split; reflexivity. Qed.
+
+(* ===== added by the D05r proof effort ===== *)
+
+
+(* ======================================================================================================== *)
+(* The last sentence of C05: the final tree of the real run is the dry run's report applied to the initial  *)
+(* tree (Pipe/ReportApplied.v).                                                                             *)
+(*                                                                                                          *)
+(* [apply_line d (src, dst, ovr) s] does not mention the pipeline: both texts are read back as paths        *)
+(* ([parse_path] = Path(text)) in the input directory d, naming the keys d ++ parts; the entry at the       *)
+(* source key is re-keyed to the destination key ([rekey] of FS/Model.v); with ovr = true an entry already  *)
+(* at the destination key is dropped first.  [apply_report d lines s] folds it over the lines, oldest       *)
+(* first; [apply_report_in] does the same for lines paired with their input directories.                    *)
+(* [report_dirs c plan cwd s] is the enriched part of the report: a twin of [run] with the same control     *)
+(* flow that records, for every successful call of the renamer (= every report line), the directory the     *)
+(* call was made in; oldest first, like r_report.                                                           *)
+(* Hypothesis added to those of C05_dry_equals_real_name_mode:                                              *)
+(*  - normal_plan plan: the relative paths of the plan are paths pathlib can produce (no empty part, no     *)
+(*    part ".", no "/" inside a part), so that Path(str(p)) = p.  The filesystem model allows any list of   *)
+(*    numbers as an entry name; C05_report_applied_needs_normal_names shows the statement is false in the   *)
+(*    model for an entry whose NAME contains "/" (no real filesystem has one).                              *)
+(* The statements hold for EVERY outcome (exit status 0 or not): the report lists what was done.            *)
+From Tempren Require Import Py.PathLibProofs Pipe.ReportApplied.
+
+(* one input directory; stop / ignore / manual without "override" and "custom path" *)
+Theorem C05_final_is_report_applied : forall c plan cwd s d,
+  c_mode c = MName -> c_fault c = None -> c_var c = fixed -> WF s ->
+  plain_plan s plan -> dest_not_link s plan -> no_override c ->
+  normal_plan plan -> (forall f r, In (f, r) plan -> pf_dir f = d) ->
+  r_final (run (cfg_set_dry c false) plan cwd s) =
+    apply_report d (r_report (run (cfg_set_dry c true) plan cwd s)) s.
+Proof. exact final_is_report_applied. Qed.
+Print Assumptions C05_final_is_report_applied.
+
+(* several input directories: a report line does not say which input directory it belongs to, so every line *)
+(* is paired with the directory the dry run recorded for it (report_dirs); the real run records the same    *)
+(* directories, there is one per line, and every pair (d, line) belongs to the plan (the plan has a file in *)
+(* d whose relative path prints as the line's source text).                                                 *)
+Theorem C05_final_is_report_applied_dirs : forall c plan cwd s,
+  c_mode c = MName -> c_fault c = None -> c_var c = fixed -> WF s ->
+  plain_plan s plan -> dest_not_link s plan -> no_override c -> normal_plan plan ->
+  let ds := report_dirs (cfg_set_dry c true) plan cwd s in
+  let lines := r_report (run (cfg_set_dry c true) plan cwd s) in
+  ds = report_dirs (cfg_set_dry c false) plan cwd s /\
+  length ds = length lines /\
+  Forall (line_of_plan plan) (combine ds lines) /\
+  r_final (run (cfg_set_dry c false) plan cwd s) = apply_report_in (combine ds lines) s.
+Proof. exact final_is_report_applied_dirs. Qed.
+Print Assumptions C05_final_is_report_applied_dirs.
+
+(* the same without the twin: SOME pairing of the lines with input directories of the plan *)
+Theorem C05_final_is_report_applied_dirs_exists : forall c plan cwd s,
+  c_mode c = MName -> c_fault c = None -> c_var c = fixed -> WF s ->
+  plain_plan s plan -> dest_not_link s plan -> no_override c -> normal_plan plan ->
+  exists ds, length ds = length (r_report (run (cfg_set_dry c true) plan cwd s)) /\
+             Forall (line_of_plan plan) (combine ds (r_report (run (cfg_set_dry c true) plan cwd s))) /\
+             r_final (run (cfg_set_dry c false) plan cwd s) =
+               apply_report_in (combine ds (r_report (run (cfg_set_dry c true) plan cwd s))) s.
+Proof. exact final_is_report_applied_dirs_exists. Qed.
+Print Assumptions C05_final_is_report_applied_dirs_exists.
+
+(* every strategy and every answer (hypotheses of C05_dry_equals_real_name_mode_override) *)
+Theorem C05_final_is_report_applied_override : forall c plan cwd s d,
+  c_mode c = MName -> c_fault c = None -> c_var c = fixed -> WF s ->
+  plain_plan s plan -> dest_not_link s plan -> no_dotdot_names plan ->
+  dest_replaceable s plan -> custom_paths_single c ->
+  normal_plan plan -> (forall f r, In (f, r) plan -> pf_dir f = d) ->
+  r_final (run (cfg_set_dry c false) plan cwd s) =
+    apply_report d (r_report (run (cfg_set_dry c true) plan cwd s)) s.
+Proof. exact final_is_report_applied_override. Qed.
+Print Assumptions C05_final_is_report_applied_override.
+
+Theorem C05_final_is_report_applied_dirs_override : forall c plan cwd s,
+  c_mode c = MName -> c_fault c = None -> c_var c = fixed -> WF s ->
+  plain_plan s plan -> dest_not_link s plan -> no_dotdot_names plan ->
+  dest_replaceable s plan -> custom_paths_single c -> normal_plan plan ->
+  let ds := report_dirs (cfg_set_dry c true) plan cwd s in
+  let lines := r_report (run (cfg_set_dry c true) plan cwd s) in
+  ds = report_dirs (cfg_set_dry c false) plan cwd s /\
+  length ds = length lines /\
+  Forall (line_of_plan plan) (combine ds lines) /\
+  r_final (run (cfg_set_dry c false) plan cwd s) = apply_report_in (combine ds lines) s.
+Proof. exact final_is_report_applied_dirs_override. Qed.
+Print Assumptions C05_final_is_report_applied_dirs_override.
+
+(* the general form all are instances of (OVR / CUS as in C05_dry_equals_real_name_mode_general) *)
+Theorem C05_final_is_report_applied_general : forall (OVR CUS : Prop) c plan cwd s,
+  c_mode c = MName -> c_fault c = None -> c_var c = fixed -> WF s ->
+  plain_plan s plan -> dest_not_link s plan ->
+  (OVR -> no_dotdot_names plan) -> (OVR -> dest_replaceable s plan) -> answers_ok OVR CUS c ->
+  normal_plan plan ->
+  let ds := report_dirs (cfg_set_dry c true) plan cwd s in
+  let lines := r_report (run (cfg_set_dry c true) plan cwd s) in
+  ds = report_dirs (cfg_set_dry c false) plan cwd s /\
+  length ds = length lines /\
+  Forall (line_of_plan plan) (combine ds lines) /\
+  r_final (run (cfg_set_dry c false) plan cwd s) = apply_report_in (combine ds lines) s.
+Proof. exact final_is_report_applied_general. Qed.
+Print Assumptions C05_final_is_report_applied_general.
+
+(* with one input directory the pairing is forced *)
+Theorem C05_one_dir_report : forall d plan ds lines s,
+  (forall f r, In (f, r) plan -> pf_dir f = d) ->
+  length ds = length lines -> Forall (line_of_plan plan) (combine ds lines) ->
+  apply_report_in (combine ds lines) s = apply_report d lines s.
+Proof. exact one_dir_report. Qed.
+Print Assumptions C05_one_dir_report.
+
+(* a report line printed from normal paths is the re-keying of its source key to its destination key *)
+Theorem C05_apply_line_is_rekey : forall d src dst ovr s,
+  normal_rel src -> normal_rel dst ->
+  apply_line d (pp_str src, pp_str dst, ovr) s =
+    rekey (d ++ pp_parts src) (d ++ pp_parts dst) (if ovr then remove_key (d ++ pp_parts dst) s else s).
+Proof. exact apply_line_rename. Qed.
+Print Assumptions C05_apply_line_is_rekey.
+
+(* Non-vacuity, a deferred rename: in/a -> "b" (taken: deferred), in/b -> "c", then in/a -> "b" from the    *)
+(* backlog.  The hypotheses hold; the dry run reports b -> c, a -> b; the real run ends with in/b = old a,  *)
+(* in/c = old b, and that is the report applied to the initial tree.                                        *)
+Definition c05_ra_in : rpath := [[105;110]].
+Definition c05_ra_fs : fs := [(c05_ra_in, NDir); (c05_ra_in ++ [[97]], NFile 1); (c05_ra_in ++ [[98]], NFile 2)].
+Definition c05_ra_plan : list (pfile * rendered) :=
+  mk_plan [(c05_ra_in, [97], RText [98]); (c05_ra_in, [98], RText [99])].
+
+Example C05_final_is_report_applied_nonvacuous :
+  (c05_covered_b c05_ra_fs c05_ra_plan = true /\ normal_plan_b c05_ra_plan = true /\
+   forallb (fun fr => rpath_eqb (pf_dir (fst fr)) c05_ra_in) c05_ra_plan = true) /\
+  (let d := run (cfg_set_dry (c05_ex_cfg Stop []) true) c05_ra_plan [] c05_ra_fs in
+   let r := run (cfg_set_dry (c05_ex_cfg Stop []) false) c05_ra_plan [] c05_ra_fs in
+   r_status r = 0%Z /\
+   r_report d = [([98], [99], false); ([97], [98], false)] /\
+   r_final d = c05_ra_fs /\
+   r_final r = [(c05_ra_in, NDir); (c05_ra_in ++ [[98]], NFile 1); (c05_ra_in ++ [[99]], NFile 2)] /\
+   apply_report c05_ra_in (r_report d) c05_ra_fs =
+     [(c05_ra_in, NDir); (c05_ra_in ++ [[98]], NFile 1); (c05_ra_in ++ [[99]], NFile 2)]).
+Proof. vm_compute. repeat split; reflexivity. Qed.
+
+(* ... and obtained from the theorem *)
+Example C05_final_is_report_applied_instance :
+  r_final (run (cfg_set_dry (c05_ex_cfg Stop []) false) c05_ra_plan [] c05_ra_fs) =
+    apply_report c05_ra_in (r_report (run (cfg_set_dry (c05_ex_cfg Stop []) true) c05_ra_plan [] c05_ra_fs)) c05_ra_fs.
+Proof.
+  destruct (c05_covered_b_sound c05_ra_fs c05_ra_plan eq_refl) as [W [PP NL]].
+  assert (NP : normal_plan c05_ra_plan) by (apply normal_plan_b_sound; reflexivity).
+  assert (One : forall f r, In (f, r) c05_ra_plan -> pf_dir f = c05_ra_in)
+    by (intros f r [E|[E|[]]]; inversion E; reflexivity).
+  exact (final_is_report_applied (c05_ex_cfg Stop []) c05_ra_plan [] c05_ra_fs c05_ra_in
+           eq_refl eq_refl eq_refl W PP NL I NP One).
+Qed.
+
+(* A run that fails (status 1) half-way: in/x -> X, in/y -> X (deferred), in2/x -> X, then the deferred one *)
+(* conflicts and --conflict stop ends the run.  Two input directories: the two report lines read "x -> X"   *)
+(* both, the first belongs to in, the second to in2; with that pairing the report applied to the initial    *)
+(* tree is the final tree, with the one-directory reading it is not.  Under override the run succeeds and   *)
+(* the third line (in/y -> X, override) drops the entry in/X first.                                         *)
+Example C05_final_is_report_applied_two_dirs :
+  (let d := run (cfg_set_dry (c05_ex_cfg Stop []) true) c05_ex_plan [] f3_fs in
+   let r := run (cfg_set_dry (c05_ex_cfg Stop []) false) c05_ex_plan [] f3_fs in
+   r_status r = 1%Z /\ r_report d = [([120], [88], false); ([120], [88], false)] /\
+   fs_eqb (r_final r) f3_fs = false /\
+   report_dirs (cfg_set_dry (c05_ex_cfg Stop []) true) c05_ex_plan [] f3_fs = [[[105;110]]; [[105;110;50]]] /\
+   r_final r = apply_report_in (combine [[[105;110]]; [[105;110;50]]] (r_report d)) f3_fs /\
+   r_final r <> apply_report [[105;110]] (r_report d) f3_fs) /\
+  (normal_plan_b c05_ex_plan = true /\
+   let d := run (cfg_set_dry (c05_ex_cfg Override []) true) c05_ex_plan [] f3_fs in
+   let r := run (cfg_set_dry (c05_ex_cfg Override []) false) c05_ex_plan [] f3_fs in
+   r_status r = 0%Z /\ r_report d = [([120], [88], false); ([120], [88], false); ([121], [88], true)] /\
+   report_dirs (cfg_set_dry (c05_ex_cfg Override []) true) c05_ex_plan [] f3_fs = [[[105;110]]; [[105;110;50]]; [[105;110]]] /\
+   r_final r = apply_report_in (combine [[[105;110]]; [[105;110;50]]; [[105;110]]] (r_report d)) f3_fs /\
+   length (r_final r) = 5%nat /\ length f3_fs = 6%nat).
+Proof. vm_compute. repeat split; try reflexivity; discriminate. Qed.
+
+(* normal_plan is needed: an entry of in whose NAME is "a/b" (one component; impossible on a real             *)
+(* filesystem, possible in the model) is renamed to "c"; the report line reads "a/b -> c", and read back as *)
+(* a path "a/b" names the key in/a/b, which does not exist: the report applied leaves the tree unchanged.   *)
+Definition c05_slash_fs : fs := [(c05_ra_in, NDir); (c05_ra_in ++ [[97;47;98]], NFile 1)].
+Definition c05_slash_plan : list (pfile * rendered) :=
+  [({| pf_dir := c05_ra_in; pf_rel := {| pp_root := 0%nat; pp_parts := [[97;47;98]] |} |}, RText [99])].
+
+Example C05_report_applied_needs_normal_names :
+  let d := run (cfg_set_dry (c05_ex_cfg Stop []) true) c05_slash_plan [] c05_slash_fs in
+  let r := run (cfg_set_dry (c05_ex_cfg Stop []) false) c05_slash_plan [] c05_slash_fs in
+  c05_covered_b c05_slash_fs c05_slash_plan = true /\ normal_plan_b c05_slash_plan = false /\
+  r_status r = 0%Z /\ r_report d = [([97;47;98], [99], false)] /\
+  r_final r = [(c05_ra_in, NDir); (c05_ra_in ++ [[99]], NFile 1)] /\
+  apply_report c05_ra_in (r_report d) c05_slash_fs = c05_slash_fs.
+Proof. vm_compute. repeat split; reflexivity. Qed.
+
+(* the several-directories theorem applied to the two-directory plan above *)
+Example C05_final_is_report_applied_dirs_instance :
+  let c := c05_ex_cfg Stop [] in
+  let ds := report_dirs (cfg_set_dry c true) c05_ex_plan [] f3_fs in
+  let lines := r_report (run (cfg_set_dry c true) c05_ex_plan [] f3_fs) in
+  ds = report_dirs (cfg_set_dry c false) c05_ex_plan [] f3_fs /\
+  length ds = length lines /\
+  Forall (line_of_plan c05_ex_plan) (combine ds lines) /\
+  r_final (run (cfg_set_dry c false) c05_ex_plan [] f3_fs) = apply_report_in (combine ds lines) f3_fs.
+Proof.
+  destruct (c05_covered_b_sound f3_fs c05_ex_plan eq_refl) as [W [PP NL]].
+  assert (NP : normal_plan c05_ex_plan) by (apply normal_plan_b_sound; reflexivity).
+  exact (final_is_report_applied_dirs (c05_ex_cfg Stop []) c05_ex_plan [] f3_fs eq_refl eq_refl eq_refl W PP NL I NP).
+Qed.
+
+(* ===== added by the D05p proof effort ===== *)
+
+(* ====================== PATH mode (FileMover: mkdir -p of the destination's parent, then shutil.move) ============== *)
+(* Proofs: Pipe/DryEqualsRealPath.v; checkers and scenarios: Pipe/DryEqualsRealPathCheck.v.                          *)
+From Tempren Require Import Pipe.PlanExactPath Pipe.DryEqualsRealPath Pipe.DryEqualsRealPathCheck.
+
+(* The property's restriction for path mode, "no destination lies on or beneath an existing entry of the wrong kind", *)
+(* as the predicate [path_dests_ok s plan] on the initial tree and the plan; spelled out:                            *)
+(*  - every rendered destination is a relative path without ".." (a template that raises is allowed, an absolute      *)
+(*    result is not), short enough for the model's path walk;                                                         *)
+(*  - every proper ancestor of input directory / destination is a directory of the tree or missing (so no symbolic    *)
+(*    link and no regular file on the way: in particular no destination lies beneath a source of the plan);          *)
+(*  - the destination itself is missing or a regular file (not an existing directory, not a symbolic link);          *)
+(*  - no destination is a proper ancestor of another destination.                                                     *)
+Theorem C05_path_dests_ok_spelled_out : forall s plan,
+  path_dests_ok s plan <->
+  (forall f r, In (f, r) plan ->
+     match r with
+     | RText t =>
+         let np := parse_path t in
+         let T := pf_dir f ++ pp_parts np in
+         pp_root np = 0%nat /\ ~ In dotdot (pp_parts np) /\
+         (length (pf_dir f) + length (pp_parts np) < walk_fuel)%nat /\
+         (forall pre post, T = pre ++ post -> post <> [] -> lookup s pre = Some NDir \/ lookup s pre = None) /\
+         (forall n, lookup s T = Some n -> exists i, n = NFile i)
+     | RAbs _ => False
+     | RRaise _ => True
+     end) /\
+  (forall f t f' t', In (f, RText t) plan -> In (f', RText t') plan ->
+     ~ exists r, r <> [] /\ pf_dir f' ++ pp_parts (parse_path t') = (pf_dir f ++ pp_parts (parse_path t)) ++ r).
+Proof. exact path_dests_ok_spelled_out. Qed.
+Print Assumptions C05_path_dests_ok_spelled_out.
+
+(* The full statement for path mode: stop / ignore / manual without "override" and "custom path". *)
+Theorem C05_dry_equals_real_path_mode : forall c plan cwd s,
+  c_mode c = MPath -> c_fault c = None -> c_var c = fixed -> WF s ->
+  plain_plan s plan -> path_dests_ok s plan -> no_override c ->
+  let d := run (cfg_set_dry c true) plan cwd s in
+  let r := run (cfg_set_dry c false) plan cwd s in
+  r_status d = r_status r /\ r_report d = r_report r /\ r_prompts d = r_prompts r /\ r_error d = r_error r.
+Proof. exact dry_equals_real_path_mode. Qed.
+Print Assumptions C05_dry_equals_real_path_mode.
+
+(* Every strategy, --conflict override and "override" at the manual prompt included; only "custom path" is never      *)
+(* answered (a typed path is not restricted by the hypotheses on the plan: C05_path_custom_path_refuted).             *)
+Theorem C05_dry_equals_real_path_mode_override : forall c plan cwd s,
+  c_mode c = MPath -> c_fault c = None -> c_var c = fixed -> WF s ->
+  plain_plan s plan -> path_dests_ok s plan -> no_custom_path c ->
+  let d := run (cfg_set_dry c true) plan cwd s in
+  let r := run (cfg_set_dry c false) plan cwd s in
+  r_status d = r_status r /\ r_report d = r_report r /\ r_prompts d = r_prompts r /\ r_error d = r_error r.
+Proof. exact dry_equals_real_path_mode_override. Qed.
+Print Assumptions C05_dry_equals_real_path_mode_override.
+
+(* The hypotheses about tree and plan are decidable: [c05_path_covered_b] is a sound checker for them. *)
+Theorem C05_path_covered_b_sound : forall s plan,
+  c05_path_covered_b s plan = true -> WF s /\ plain_plan s plan /\ path_dests_ok s plan.
+Proof. exact c05_path_covered_b_sound. Qed.
+Print Assumptions C05_path_covered_b_sound.
+
+(* What the proof rests on (1): on a path all of whose ancestors are directories or missing, mkdir -p succeeds and     *)
+(* leaves the path a directory.                                                                                        *)
+Theorem C05_mkdir_p_succeeds : forall d fuel w p,
+  pp_root p = 0%nat -> ~ In dotdot (pp_parts p) -> (length (pp_parts p) <= fuel)%nat ->
+  (length d + length (pp_parts p) < walk_fuel)%nat ->
+  WF (w_fs w) -> lookup (w_fs w) d = Some NDir -> dmi (w_fs w) (d ++ pp_parts p) ->
+  exists w', mkdir_p fuel None w d p = (w', None) /\ lookup (w_fs w') (d ++ pp_parts p) = Some NDir.
+Proof. exact mkdir_p_success. Qed.
+Print Assumptions C05_mkdir_p_succeeds.
+
+(* (2): the simulation relation (the real disk may hold extra directories at keys that are proper ancestors of        *)
+(* destinations) is preserved by one call of the renamer, and both calls end alike.                                    *)
+Theorem C05_path_sim_renamer : forall s0 plan st answers OVR, WF s0 -> path_dests_ok s0 plan ->
+  forall wd wr d src dst wd' ed wr' er,
+  SimP s0 plan st OVR wd wr -> step_ok s0 plan d src dst ->
+  renamer (pD st answers) wd d src dst false = (wd', ed) -> renamer (pR st answers) wr d src dst false = (wr', er) ->
+  ed = er /\ SimP s0 plan st OVR wd' wr'.
+Proof. exact simp_renamer. Qed.
+Print Assumptions C05_path_sim_renamer.
+
+(* Non-vacuity: in/c -> "x" (in/x exists: a conflict that stays), in/a -> "b" (in/b exists: deferred),                *)
+(* in/b -> "new/deep/b" (creates in/new and in/new/deep; the dry run performs no call at all).  In the second pass    *)
+(* in/a -> b succeeds and in/c -> x is the conflict: status 1 under stop, 0 under ignore, in both runs, with the      *)
+(* same two reported renames; under override both report the third rename as an override.  The hypotheses hold        *)
+(* (sound checker), so the theorems apply.                                                                             *)
+Example C05_path_mode_nonvacuous :
+  c05_path_covered_b p5_fs p5_plan = true /\
+  (let d := run (cfg_set_dry (p5_cfg Stop []) true) p5_plan [] p5_fs in
+   let r := run (cfg_set_dry (p5_cfg Stop []) false) p5_plan [] p5_fs in
+   r_status d = 1%Z /\ r_status r = 1%Z /\ r_report d = p5_report /\ r_report r = p5_report /\
+   r_error d = Some ExDestExists /\ r_error r = Some ExDestExists /\
+   r_calls d = [] /\
+   r_calls r = [(CMkdir, CErr); (CMkdir, COk); (CMkdir, COk); (CMove, COk); (CMkdir, CErr); (CMove, COk)] /\
+   lookup (r_final r) [p5_in; [110;101;119]; [100;101;101;112]; [98]] = Some (NFile 2) /\
+   lookup (r_final r) [p5_in; [98]] = Some (NFile 1) /\ r_final d = p5_fs) /\
+  (let d := run (cfg_set_dry (p5_cfg Ignore []) true) p5_plan [] p5_fs in
+   let r := run (cfg_set_dry (p5_cfg Ignore []) false) p5_plan [] p5_fs in
+   r_status d = 0%Z /\ r_status r = 0%Z /\ r_report d = p5_report /\ r_report r = p5_report) /\
+  (let d := run (cfg_set_dry (p5_cfg Override []) true) p5_plan [] p5_fs in
+   let r := run (cfg_set_dry (p5_cfg Override []) false) p5_plan [] p5_fs in
+   r_status d = 0%Z /\ r_status r = 0%Z /\ r_report d = p5_report_ov /\ r_report r = p5_report_ov /\
+   lookup (r_final r) [p5_in; [120]] = Some (NFile 3)).
+Proof. vm_compute. repeat split; reflexivity. Qed.
+
+(* ... and obtained from the theorems rather than by running both *)
+Example C05_path_mode_instance :
+  let c := p5_cfg Manual [[122]; [115]] in                           (* "z" (asked again), "s" = stop *)
+  let d := run (cfg_set_dry c true) p5_plan [] p5_fs in
+  let r := run (cfg_set_dry c false) p5_plan [] p5_fs in
+  r_status d = r_status r /\ r_report d = r_report r /\ r_prompts d = r_prompts r /\ r_error d = r_error r.
+Proof.
+  destruct (c05_path_covered_b_sound p5_fs p5_plan eq_refl) as [W [PP DO]].
+  apply C05_dry_equals_real_path_mode; try assumption; try reflexivity.
+  unfold no_override. cbn [c_strategy p5_cfg c_answers]. repeat constructor; vm_compute; discriminate.
+Qed.
+
+Example C05_path_mode_override_instance :
+  let c := p5_cfg Manual [[122]; [111]] in                           (* "z" (asked again), "o" = override *)
+  let d := run (cfg_set_dry c true) p5_plan [] p5_fs in
+  let r := run (cfg_set_dry c false) p5_plan [] p5_fs in
+  r_status d = r_status r /\ r_report d = r_report r /\ r_prompts d = r_prompts r /\ r_error d = r_error r.
+Proof.
+  destruct (c05_path_covered_b_sound p5_fs p5_plan eq_refl) as [W [PP DO]].
+  apply C05_dry_equals_real_path_mode_override; try assumption; try reflexivity.
+  unfold no_custom_path. cbn [c_strategy p5_cfg c_answers]. repeat constructor; vm_compute; discriminate.
+Qed.
+
+(* The restrictions are needed: dropping one makes the statement false in the model (DryRunRenamer never creates a     *)
+(* directory and never looks at the kind of an entry; mkdir -p and shutil.move do).                                    *)
+(* 1. a destination beneath an existing regular file (in/a a file, in/b -> "a/b"): dry 0 with one rename reported;     *)
+(*    mkdir -p of in/a raises FileExistsError, the rename is deferred and ends as a conflict: 1.                       *)
+Example C05_path_beneath_a_file_refuted :
+  let d := run (cfg_set_dry (p5_cfg Stop []) true) p5_file_plan [] p5_file_fs in
+  let r := run (cfg_set_dry (p5_cfg Stop []) false) p5_file_plan [] p5_file_fs in
+  wf_b p5_file_fs = true /\ plain_plan_b p5_file_fs p5_file_plan = true /\ path_dests_ok_b p5_file_fs p5_file_plan = false /\
+  r_status d = 0%Z /\ r_status r = 1%Z /\ length (r_report d) = 1%nat /\ r_report r = [].
+Proof. vm_compute. repeat split; reflexivity. Qed.
+
+(* 2. a destination that is an ancestor of another one (in/a -> "n", in/b -> "n/b"; each entry alone is fine).        *)
+Example C05_path_destination_above_destination_refuted :
+  let d := run (cfg_set_dry (p5_cfg Stop []) true) p5_anc_plan [] p5_file_fs in
+  let r := run (cfg_set_dry (p5_cfg Stop []) false) p5_anc_plan [] p5_file_fs in
+  wf_b p5_file_fs = true /\ plain_plan_b p5_file_fs p5_anc_plan = true /\
+  forallb (path_entry_ok_b p5_file_fs) p5_anc_plan = true /\ path_dests_ok_b p5_file_fs p5_anc_plan = false /\
+  r_status d = 0%Z /\ r_status r = 1%Z /\ length (r_report d) = 2%nat /\ length (r_report r) = 1%nat.
+Proof. vm_compute. repeat split; reflexivity. Qed.
+
+(* 3. a symbolic link among the ancestors (in/l -> sub; in/a -> "l/x", in/b -> "sub/x": one entry on disk, two names   *)
+(*    in the dry run's bookkeeping).                                                                                   *)
+Example C05_path_link_ancestor_refuted :
+  let d := run (cfg_set_dry (p5_cfg Stop []) true) p5_link_plan [] p5_link_fs in
+  let r := run (cfg_set_dry (p5_cfg Stop []) false) p5_link_plan [] p5_link_fs in
+  wf_b p5_link_fs = true /\ plain_plan_b p5_link_fs p5_link_plan = true /\ path_dests_ok_b p5_link_fs p5_link_plan = false /\
+  r_status d = 0%Z /\ r_status r = 1%Z /\ length (r_report d) = 2%nat /\ length (r_report r) = 1%nat.
+Proof. vm_compute. repeat split; reflexivity. Qed.
+
+(* 4. a custom path typed at the prompt ("c", then "x/y" with in/x a regular file) on a covered plan.                  *)
+Example C05_path_custom_path_refuted :
+  let c := p5_cfg Manual [[99]; [120;47;121]] in
+  let d := run (cfg_set_dry c true) p5_plan [] p5_fs in
+  let r := run (cfg_set_dry c false) p5_plan [] p5_fs in
+  c05_path_covered_b p5_fs p5_plan = true /\
+  r_status d = 0%Z /\ r_status r = 126%Z /\ length (r_report d) = 3%nat /\ length (r_report r) = 2%nat.
+Proof. vm_compute. repeat split; reflexivity. Qed.
+
+(* 5. --conflict override onto an existing directory (in/a -> "sub", in/sub/a exists): shutil.move moves INTO the      *)
+(*    directory (shutil.Error: 126), the dry run reports an override (0).                                              *)
+Example C05_path_override_onto_directory_refuted :
+  let d := run (cfg_set_dry (p5_cfg Override []) true) p5_ovdir_plan [] p5_ovdir_fs in
+  let r := run (cfg_set_dry (p5_cfg Override []) false) p5_ovdir_plan [] p5_ovdir_fs in
+  wf_b p5_ovdir_fs = true /\ plain_plan_b p5_ovdir_fs p5_ovdir_plan = true /\ path_dests_ok_b p5_ovdir_fs p5_ovdir_plan = false /\
+  r_status d = 0%Z /\ r_status r = 126%Z /\ length (r_report d) = 1%nat /\ r_report r = [].
+Proof. vm_compute. repeat split; reflexivity. Qed.
+
+(* ===== added by the D05d proof effort ===== *)
+
+
+(* ======================================================================================================== *)
+(* The full statement, directory mode (Pipe/DryEqualsRealDir.v).                                            *)
+(*                                                                                                          *)
+(* The sources are directories; os.rename moves the directory and everything below it, DryRunRenamer only   *)
+(* records the two names.  Hypotheses (definitions of Pipe/DryEqualsRealDir.v, sound boolean checkers       *)
+(* there):                                                                                                  *)
+(*  - plain_dir_plan s plan: [plain_plan] with "dir ++ parts is a DIRECTORY of s" for "is a regular file":  *)
+(*    chdir s dir = Some dir, no ".." in dir or in the relative path, pp_root = 0, non-empty parts, every   *)
+(*    proper prefix below dir is a directory entry of s, length dir + length parts < walk_fuel.             *)
+(*  - non_nested plan: no selected directory lies strictly below another selected directory                 *)
+(*    (dir_key f = pf_dir f ++ pp_parts (pf_rel f); proper_prefix of FS/Lemmas.v); the same directory may   *)
+(*    be designated more than once.  This is the static form of the restriction in the property (no          *)
+(*    conflicting directory lies beneath a directory that is itself renamed); without it the statement is   *)
+(*    false                                                                                                 *)
+(*    (C05_directory_mode_nested_refuted: the open finding F25).  Weakened to the restriction of the       *)
+(*    property itself in C05_dry_equals_real_directory_mode_nested below.                                   *)
+(*  - dest_not_link s plan, no_override c: as in name mode.                                                 *)
+(* Rendered values are arbitrary (RText / RAbs / RRaise; the name ".." included), the order of the plan,    *)
+(* collisions, chains and deferrals are arbitrary.                                                          *)
+From Tempren Require Import Pipe.DryEqualsRealDir.
+
+Theorem C05_dry_equals_real_directory_mode : forall c plan cwd s,
+  c_mode c = MDirectory -> c_fault c = None -> c_var c = fixed -> WF s ->
+  plain_dir_plan s plan -> non_nested plan -> dest_not_link s plan -> no_override c ->
+  let d := run (cfg_set_dry c true) plan cwd s in
+  let r := run (cfg_set_dry c false) plan cwd s in
+  r_status d = r_status r /\ r_report d = r_report r /\ r_prompts d = r_prompts r /\ r_error d = r_error r.
+Proof. exact dry_equals_real_directory_mode. Qed.
+Print Assumptions C05_dry_equals_real_directory_mode.
+
+(* The relation the proof maintains between the dry and the real world (SimD): every proper prefix of a     *)
+(* source key (an "anchor") stays a directory of the real disk and is never recorded as removed; for every  *)
+(* name anchor/x, virtual existence = existence on the real disk.  One renamer call preserves it.           *)
+Theorem C05_simd_renamer : forall s0 st answers (anc : rpath -> Prop), WF s0 ->
+  forall wd wr d src dst wd' ed wr' er,
+  SimD s0 st anc wd wr -> ready_src s0 anc d src -> plain_rel s0 d dst ->
+  removelast (pp_parts dst) = removelast (pp_parts src) ->
+  renamer (dD st answers) wd d src dst false = (wd', ed) -> renamer (dR st answers) wr d src dst false = (wr', er) ->
+  ed = er /\ SimD s0 st anc wd' wr'.
+Proof. exact simd_renamer. Qed.
+Print Assumptions C05_simd_renamer.
+
+(* Non-vacuity: two sibling directories with contents (in/d1/f, in/d2/g) and the chain d1 -> d2, d2 -> d3:   *)
+(* the first rename is a conflict and is deferred, the second succeeds, the deferred one then succeeds.      *)
+(* The hypotheses hold (sound checker); both runs end with status 0 and report the same two renames.         *)
+Definition c05_dir_fs : fs :=
+  [([[105;110]], NDir); ([[105;110]; [100;49]], NDir); ([[105;110]; [100;49]; [102]], NFile 1);
+   ([[105;110]; [100;50]], NDir); ([[105;110]; [100;50]; [103]], NFile 2); ([[111;117;116]], NDir)].
+Definition c05_dir_plan : list (pfile * rendered) :=
+  mk_plan [([[105;110]], [100;49], RText [100;50]); ([[105;110]], [100;50], RText [100;51])].
+Definition c05_dir_cfg (st : strategy) (ans : list str) : cfg :=
+  {| c_mode := MDirectory; c_strategy := st; c_dry := false; c_answers := ans; c_fault := None; c_var := fixed |}.
+
+Example C05_dry_equals_real_directory_mode_nonvacuous :
+  (WF c05_dir_fs /\ plain_dir_plan c05_dir_fs c05_dir_plan /\ non_nested c05_dir_plan /\
+   dest_not_link c05_dir_fs c05_dir_plan) /\
+  (let d := run (cfg_set_dry (c05_dir_cfg Stop []) true) c05_dir_plan [] c05_dir_fs in
+   let r := run (cfg_set_dry (c05_dir_cfg Stop []) false) c05_dir_plan [] c05_dir_fs in
+   r_status d = 0%Z /\ r_status r = 0%Z /\ r_report d = r_report r /\ length (r_report r) = 2%nat /\
+   lookup (r_final r) [[105;110]; [100;50]; [102]] = Some (NFile 1) /\        (* in/d2/f: the contents moved along *)
+   lookup (r_final r) [[105;110]; [100;51]; [103]] = Some (NFile 2) /\        (* in/d3/g *)
+   r_final d = c05_dir_fs).
+Proof.
+  split; [apply c05_dir_covered_b_sound; vm_compute; reflexivity|].
+  vm_compute. repeat split; reflexivity.
+Qed.
+
+(* ... and obtained from the theorem rather than by running both; also at the manual prompt ("x" is invalid,   *)
+(* "i" ignores) *)
+Example C05_dry_equals_real_directory_mode_instance :
+  let c := c05_dir_cfg Manual [[120]; [105]] in
+  let d := run (cfg_set_dry c true) c05_dir_plan [] c05_dir_fs in
+  let r := run (cfg_set_dry c false) c05_dir_plan [] c05_dir_fs in
+  r_status d = r_status r /\ r_report d = r_report r /\ r_prompts d = r_prompts r /\ r_error d = r_error r.
+Proof.
+  destruct (c05_dir_covered_b_sound c05_dir_fs c05_dir_plan eq_refl) as [W [PP [NN NL]]].
+  apply dry_equals_real_directory_mode; try assumption; try reflexivity.
+  unfold no_override. cbn [c_strategy c05_dir_cfg c_answers].
+  repeat constructor; discriminate.
+Qed.
+
+(* The non-nesting hypothesis is needed (open finding F25, the plan of C02_directory_mode_refuted):           *)
+(* in/a/c -> k is a conflict (in/a/k exists) and is deferred, in/a -> z and in/b -> a succeed; when the        *)
+(* deferred rename is retried the real disk has the OTHER in/a (the old in/b, with a child c and no k): the    *)
+(* real run renames it, three renames, status 0; the dry run still sees in/a/k on the untouched disk: a        *)
+(* conflict, status 1, two renames.  Every other hypothesis of the theorem holds.                              *)
+(* The second plan (a/c -> k deferred, then a -> z) differs the other way round: the real run cannot find      *)
+(* in/a/c any more (FileNotFoundError, 126), the dry run reports the conflict (1).                             *)
+Definition c05_nested_plan2 : list (pfile * rendered) :=
+  mk_plan [([[105;110]], [97;47;99], RText [107]); ([[105;110]], [97], RText [122])].
+
+Example C05_directory_mode_nested_refuted :
+  let d := run (f25_cfg fixed true) f25_plan [] f25_fs in
+  let r := run (f25_cfg fixed false) f25_plan [] f25_fs in
+  wf_b f25_fs = true /\ plain_dir_plan_b f25_fs f25_plan = true /\ dest_not_link_b f25_fs f25_plan = true /\
+  non_nested_b f25_plan = false /\
+  r_status d = 1%Z /\ r_status r = 0%Z /\ length (r_report d) = 2%nat /\ length (r_report r) = 3%nat /\
+  (let d2 := run (f25_cfg fixed true) c05_nested_plan2 [] f25_fs in
+   let r2 := run (f25_cfg fixed false) c05_nested_plan2 [] f25_fs in
+   plain_dir_plan_b f25_fs c05_nested_plan2 = true /\ dest_not_link_b f25_fs c05_nested_plan2 = true /\
+   non_nested_b c05_nested_plan2 = false /\
+   r_status d2 = 1%Z /\ r_status r2 = 126%Z /\ r_report d2 = r_report r2).
+Proof. vm_compute. repeat split; reflexivity. Qed.
+
+(* ---------- directory mode, nested selections (Pipe/DryEqualsRealDirNested.v) ------------------------------ *)
+(* The restriction of the property itself: a selected directory may lie below another selected directory    *)
+(* as long as it cannot conflict.  [children_first s plan], for every position  plan = pre ++ (f, r) :: post: *)
+(*  (i)  no entry of post lies strictly below f (children are processed before their parents), and          *)
+(*  (ii) if some selected directory lies strictly above f (has_parent plan f) and r = RText t, then t is not  *)
+(*       "..", dest_of f t is free on the initial tree and no entry of pre has the same destination: f is     *)
+(*       renamed at once or fails, it is never deferred.                                                      *)
+(* [non_nested] is the special case without any parent (C05_non_nested_is_children_first).  Both halves are   *)
+(* needed: C05_directory_mode_nested_refuted above violates (ii) only, C05_directory_mode_parent_first_refuted *)
+(* below violates (i) only.                                                                                    *)
+From Tempren Require Import Pipe.DryEqualsRealDirNested.
+
+Theorem C05_dry_equals_real_directory_mode_nested : forall c plan cwd s,
+  c_mode c = MDirectory -> c_fault c = None -> c_var c = fixed -> WF s ->
+  plain_dir_plan s plan -> children_first s plan -> dest_not_link s plan -> no_override c ->
+  let d := run (cfg_set_dry c true) plan cwd s in
+  let r := run (cfg_set_dry c false) plan cwd s in
+  r_status d = r_status r /\ r_report d = r_report r /\ r_prompts d = r_prompts r /\ r_error d = r_error r.
+Proof. exact dry_equals_real_directory_mode_nested. Qed.
+Print Assumptions C05_dry_equals_real_directory_mode_nested.
+
+(* The same restriction read off the dry run instead of the tree (weaker: children_first implies it,             *)
+(* C05_children_first_deferred_top): children before parents ([parents_last], part (i)), and nothing that the DRY       *)
+(* run's first pass defers lies beneath a selected directory ([deferred_top]: dry_deferred c plan cwd s is the      *)
+(* backlog first_pass returns for cfg_set_dry c true; bkey its source key; top_in plan k: no dir_key of the plan    *)
+(* is a proper prefix of k).  So whether the prediction can be trusted is itself visible in the dry run.            *)
+Theorem C05_dry_equals_real_directory_mode_deferred : forall c plan cwd s,
+  c_mode c = MDirectory -> c_fault c = None -> c_var c = fixed -> WF s ->
+  plain_dir_plan s plan -> parents_last plan -> deferred_top c plan cwd s ->
+  dest_not_link s plan -> no_override c ->
+  let d := run (cfg_set_dry c true) plan cwd s in
+  let r := run (cfg_set_dry c false) plan cwd s in
+  r_status d = r_status r /\ r_report d = r_report r /\ r_prompts d = r_prompts r /\ r_error d = r_error r.
+Proof. exact dry_equals_real_directory_mode_deferred. Qed.
+Print Assumptions C05_dry_equals_real_directory_mode_deferred.
+
+Theorem C05_children_first_deferred_top : forall c plan cwd s,
+  c_mode c = MDirectory -> c_fault c = None -> c_var c = fixed -> WF s ->
+  plain_dir_plan s plan -> children_first s plan -> dest_not_link s plan -> no_override c ->
+  parents_last plan /\ deferred_top c plan cwd s.
+Proof. exact children_first_deferred_top. Qed.
+Print Assumptions C05_children_first_deferred_top.
+
+Theorem C05_non_nested_is_children_first : forall s plan, non_nested plan -> children_first s plan.
+Proof. exact non_nested_children_first. Qed.
+Print Assumptions C05_non_nested_is_children_first.
+
+(* Non-vacuity, nested: the tree of F25 (in/a/c, in/a/k, in/b/c) with the child first and a free new name:     *)
+(* in/a/c -> q at once, in/a -> b is a conflict and deferred (a top entry), in/b -> z, then in/a -> b.          *)
+(* The selection is nested (non_nested_b = false), the hypotheses of the nested theorem hold; status 0 and the  *)
+(* same three renames in both runs; the child has moved along with its parent (in/b/q).                          *)
+Definition c05_nested_ok_plan : list (pfile * rendered) :=
+  mk_plan [([[105;110]], [97;47;99], RText [113]); ([[105;110]], [97], RText [98]); ([[105;110]], [98], RText [122])].
+
+Example C05_dry_equals_real_directory_mode_nested_nonvacuous :
+  (WF f25_fs /\ plain_dir_plan f25_fs c05_nested_ok_plan /\ children_first f25_fs c05_nested_ok_plan /\
+   dest_not_link f25_fs c05_nested_ok_plan) /\
+  non_nested_b c05_nested_ok_plan = false /\
+  (let d := run (f25_cfg fixed true) c05_nested_ok_plan [] f25_fs in
+   let r := run (f25_cfg fixed false) c05_nested_ok_plan [] f25_fs in
+   r_status d = 0%Z /\ r_status r = 0%Z /\ r_report d = r_report r /\ length (r_report r) = 3%nat /\
+   lookup (r_final r) [[105;110]; [98]; [113]] = Some NDir /\ lookup (r_final r) [[105;110]; [122]; [99]] = Some NDir).
+Proof.
+  split; [apply c05_dir_nested_covered_b_sound; vm_compute; reflexivity|].
+  vm_compute. repeat split; reflexivity.
+Qed.
+
+Example C05_dry_equals_real_directory_mode_nested_instance :
+  let d := run (cfg_set_dry (f25_cfg fixed false) true) c05_nested_ok_plan [] f25_fs in
+  let r := run (cfg_set_dry (f25_cfg fixed false) false) c05_nested_ok_plan [] f25_fs in
+  r_status d = r_status r /\ r_report d = r_report r /\ r_prompts d = r_prompts r /\ r_error d = r_error r.
+Proof.
+  destruct (c05_dir_nested_covered_b_sound f25_fs c05_nested_ok_plan eq_refl) as [W [PP [CF NL]]].
+  apply dry_equals_real_directory_mode_nested; try assumption; try reflexivity.
+Qed.
+
+(* (i) is needed: the parent first (in/a -> z, then in/a/c -> q).  The real run cannot find in/a/c any more     *)
+(* (FileNotFoundError, 126, one rename), the dry run still sees it on the untouched disk (0, two renames).      *)
+(* The F25 plan satisfies (i) and violates (ii).                                                                 *)
+Definition c05_parent_first_plan : list (pfile * rendered) :=
+  mk_plan [([[105;110]], [97], RText [122]); ([[105;110]], [97;47;99], RText [113])].
+
+Example C05_directory_mode_parent_first_refuted :
+  let d := run (f25_cfg fixed true) c05_parent_first_plan [] f25_fs in
+  let r := run (f25_cfg fixed false) c05_parent_first_plan [] f25_fs in
+  plain_dir_plan_b f25_fs c05_parent_first_plan = true /\ dest_not_link_b f25_fs c05_parent_first_plan = true /\
+  children_first_b f25_fs c05_parent_first_plan = false /\
+  r_status d = 0%Z /\ r_status r = 126%Z /\ length (r_report d) = 2%nat /\ length (r_report r) = 1%nat /\
+  children_first_b f25_fs f25_plan = false /\ children_first_b f25_fs c05_nested_plan2 = false.
+Proof. vm_compute. repeat split; reflexivity. Qed.
+
+(* The dry-run form covers more: in/a/m -> n, in/a/c -> m, in/a -> z on a tree with in/a/c, in/a/m.  The child's    *)
+(* new name m is taken on the initial tree (children_first fails) but free by the time it is needed: nothing is      *)
+(* deferred, both runs rename three directories and end with 0.                                                      *)
+Definition c05_chain_fs : fs :=
+  [([[105;110]], NDir); ([[105;110]; [97]], NDir); ([[105;110]; [97]; [99]], NDir); ([[105;110]; [97]; [109]], NDir);
+   ([[111;117;116]], NDir)].
+Definition c05_chain_plan : list (pfile * rendered) :=
+  mk_plan [([[105;110]], [97;47;109], RText [110]); ([[105;110]], [97;47;99], RText [109]); ([[105;110]], [97], RText [122])].
+
+Example C05_dry_equals_real_directory_mode_deferred_nonvacuous :
+  let c := c05_dir_cfg Stop [] in
+  (WF c05_chain_fs /\ plain_dir_plan c05_chain_fs c05_chain_plan /\ parents_last c05_chain_plan /\
+   deferred_top c c05_chain_plan [] c05_chain_fs /\ dest_not_link c05_chain_fs c05_chain_plan) /\
+  children_first_b c05_chain_fs c05_chain_plan = false /\
+  (let d := run (cfg_set_dry c true) c05_chain_plan [] c05_chain_fs in
+   let r := run (cfg_set_dry c false) c05_chain_plan [] c05_chain_fs in
+   r_status d = 0%Z /\ r_status r = 0%Z /\ r_report d = r_report r /\ length (r_report r) = 3%nat /\
+   lookup (r_final r) [[105;110]; [122]; [109]] = Some NDir /\ lookup (r_final r) [[105;110]; [122]; [110]] = Some NDir) /\
+  (* the F25 plan: the dry run itself shows the deferred child *)
+  deferred_top_b (f25_cfg fixed false) f25_plan [] f25_fs = false.
+Proof.
+  split; [apply c05_dir_deferred_covered_b_sound; vm_compute; reflexivity|].
+  vm_compute. repeat split; reflexivity.
+Qed.
